@@ -521,7 +521,8 @@ impl ExprTypeChecker<'_, '_> {
             )));
         }
 
-        zip!(1.., args, &siggy.params).map(|(param_num, arg, param)| {
+        // (parameters that have a default - i.e. padding - take no argument at the call site)
+        zip!(1.., args, siggy.params.iter().filter(|param| param.default.is_none())).map(|(param_num, arg, param)| {
             let arg_ty = self.check_expr_as_value(arg, name.span)?;
             if let VarType::Typed(param_ty) = param.ty.value {
                 if arg_ty != param_ty {
